@@ -218,7 +218,13 @@ func (vm *VirtualMachine) runCodeInternal(ctx context.Context, codeToRun *compil
 	vm.activateCode(0, startIP, codeObj)
 
 	// Run the entrypoint until completion
-	return vm.eval(vm.initContext(ctx))
+	if err := vm.eval(vm.initContext(ctx)); err != nil {
+		return err
+	}
+	// A blocking operation that was cut short by the context (sleep, channel
+	// receive, iteration over a channel) lets the program run on; if that was
+	// its end, the evaluation must still not report success.
+	return ctx.Err()
 }
 
 // unwind discards the operands and call frames that a failed run left behind,
